@@ -94,6 +94,17 @@ func (w *Worker) sigBytes(rec *sigRecord, n int) []*Term {
 		for i := range rec.bytes {
 			rec.bytes[i] = w.freshVar(8, fmt.Sprintf("sig#%d[%d]", id, i))
 		}
+		// distinct signatures have distinct encodings (they embed fresh randomness / different keys)
+		for _, o := range w.sigs {
+			if len(o.bytes) != n {
+				continue
+			}
+			eq := w.T.True
+			for i := range o.bytes {
+				eq = w.T.And(eq, w.T.Eq(o.bytes[i], rec.bytes[i]))
+			}
+			w.assume(w.T.Not(eq))
+		}
 		w.sigs = append(w.sigs, rec)
 	}
 	return rec.bytes
@@ -137,7 +148,11 @@ func init() {
 				// a different certificate: same bytes with another serial number byte (only identity matters)
 				der[15] ^= byte(which)
 			}
-			w.keys[which] = &testKey{k: &keyObj{id: which + 1, curve: "P-256"}, der: der}
+			kid := which + 1
+			if which == 2 {
+				kid = 1 // certificate 2 is another certificate for key 0
+			}
+			w.keys[which] = &testKey{k: &keyObj{id: kid, curve: "P-256"}, der: der}
 		}
 		tk := w.keys[which]
 		priv, _ := w.newECDSAKey(fr, tk.k)
@@ -260,4 +275,20 @@ func init() {
 type testKey struct {
 	k   *keyObj
 	der []byte
+}
+
+// x509 hostname check (idealised): the test certificates are issued for example.org only.
+func init() {
+	models["(*crypto/x509.Certificate).VerifyHostname"] = func(fr *frame, a []Value) Value {
+		w := fr.w
+		h, ok := concreteStr(a[1].(Str))
+		if !ok {
+			w.outOfModel("VerifyHostname with symbolic host")
+		}
+		w.assumptions["x509.Certificate.VerifyHostname idealised: the test certificates cover exactly the host example.org"] = true
+		if h == "example.org" {
+			return IfaceV{}
+		}
+		return w.errorsNew(fr, "x509: certificate is not valid for the host (idealised)")
+	}
 }
